@@ -108,6 +108,16 @@ def ite(c, a, b):
     return a if c else b
 
 
+def indices(xs):
+    """range(len(xs)); in the symbolic reading the index range of an abstract (unbounded) sequence."""
+    return range(xs if isinstance(xs, int) else len(xs))
+
+
+def total(xs, term):
+    """sum(term(x) for x in xs) (an uninterpreted sum with extensionality in the symbolic reading)."""
+    return sum(term(x) for x in xs)
+
+
 def is_real(x):
     x = _num(x)
     return isinstance(x, (int, float)) or (isinstance(x, complex) and abs(x.imag) <= TOL_ABS + TOL_REL * abs(x))
@@ -228,3 +238,24 @@ class ConcreteGen:
         options = list(options)
         v = self._get(name, 'choice', lambda: 0 if self.rng is None else self.rng.randrange(len(options)))
         return options[int(v)]
+
+    def list(self, name, element, min_len=0, max_len=4):
+        """A list of arbitrary length (symbolic length in the symbolic reading) whose i-th element is element(g_i)."""
+        key = name + '.len'
+        n = self._get(key, 'int', lambda: min_len if self.rng is None else self.rng.randint(min_len, max_len))
+        n = max(int(n), 0)
+        return [element(_IndexedGen(self, name, i)) for i in range(n)]
+
+
+class _IndexedGen:
+    """Generator for the leaves of one list element: leaf `x` of element i of list L is called `L[i].x`."""
+
+    def __init__(self, outer, name, i):
+        self._outer, self._prefix = outer, f'{name}[{i}].'
+
+    def __getattr__(self, meth):
+        f = getattr(self._outer, meth)
+
+        def call(name, *a, **k):
+            return f(self._prefix + name, *a, **k)
+        return call
